@@ -11,7 +11,66 @@ import (
 
 // ---------------------------------------------------------------- C07
 
+// genC07Snapshot: a listing is one operation, so what it shows of different
+// keys belongs to one instant.  Two keys at the two ends of the bucket, in some
+// runs with more than a thousand filler objects between them (which a listing
+// with a delimiter walks over while it holds, or does not hold, its lock);
+// writers that change first one key and then the other; the whole run is one
+// partition of a two-register model.
+func (g *G) genC07Snapshot(p *Plan) {
+	c := &p.Config
+	c.Mode = "lin"
+	c.Backend = g.pick("mem", "mem", "mem", "bolt", "multifs")
+	if c.IsFS() {
+		c.FS = "simfs"
+	}
+	c.ClockStepMs = g.pick2(1, 7)
+	c.BoltMmap = c.Backend == "bolt"
+	b := bucketNames[0]
+	c.Buckets = []string{b}
+	c.LinSnap = true
+	c.LinKeys = []string{"a-first", "z-last"}
+	c.LinFill = g.pick2(0, 3, 1100, 1100, 2100)
+	if c.Backend != "mem" && c.LinFill > 3 {
+		c.LinFill = g.pick2(0, 3, 40)
+	}
+	keys := []KeyRef{{Key: c.LinKeys[0]}, {Key: c.LinKeys[1]}}
+	nclients := g.n(2, 3)
+	for ci := 0; ci < nclients; ci++ {
+		var ops []Op
+		for i, n := 0, g.n(2, 6); i < n; i++ {
+			k := c.LinKeys[g.rng.Intn(2)]
+			switch r := g.rng.Intn(100); {
+			case r < 35:
+				// change one key, then the other
+				ops = append(ops, Op{K: "put", B: b, Key: k, Body: g.body(8 + g.rng.Intn(60))})
+				if g.chance(0.6) {
+					other := c.LinKeys[0]
+					if k == other {
+						other = c.LinKeys[1]
+					}
+					ops = append(ops, Op{K: "put", B: b, Key: other, Body: g.body(8 + g.rng.Intn(60))})
+				}
+			case r < 45:
+				ops = append(ops, Op{K: "del", B: b, Key: k})
+			case r < 55:
+				ops = append(ops, Op{K: "get", B: b, Key: k})
+			case r < 80 || c.Backend != "mem":
+				ops = append(ops, Op{K: "list", B: b, Keys: keys, Delim: "/"})
+			default:
+				ops = append(ops, Op{K: "lsversions", B: b, Keys: keys, Delim: "/"})
+			}
+		}
+		p.Clients = append(p.Clients, ops)
+	}
+	c.Policy = g.policy(nclients)
+}
+
 func (g *G) genC07(p *Plan) {
+	if g.chance(0.04) {
+		g.genC07Snapshot(p)
+		return
+	}
 	c := &p.Config
 	c.Mode = "lin"
 	c.Backend = g.pick("mem", "mem", "bolt", "multifs", "multifs", "singlefs")
